@@ -163,6 +163,18 @@ def confirm(chk, o, prop, name):
             steps_w = set(re.findall(r'enter (?:step|before_hook) \[[^\]]*\] call=\d+ world=(w\d+)', '\n'.join(logs)))
             if aft and steps_w and not any(('world=' + w + ' ') in aft[0] for w in steps_w):
                 problems.append('the after hook did not receive the World the steps used (%s): %s' % (sorted(steps_w), aft[0][:160]))
+            # the reason handed to the after hook
+            from checks import events as _ev
+            ix_ = _ev.CukeIdx(chk.prog)
+            refd = attempt.reference(shape, tl, ix_)
+            want_reason = [c[3] for c in refd['calls'] if c[0] == 'after']
+            got_reason = re.findall(r'LOG after_hook_reason \[s\] (\w+)', out)
+            rtag2 = None if shape.retries is None else shape.retries[0]
+            if want_reason and got_reason:
+                names_ = {attempt.ix_reason(ix_, n): n for n in ('BeforeHookFailed', 'StepPassed', 'StepSkipped', 'StepFailed')}
+                k_ = min(rtag2 or 0, len(got_reason) - 1)
+                if names_.get(want_reason[0]) != got_reason[k_]:
+                    problems.append('the after hook was told %s, the attempt really finished as %s' % (got_reason[k_], names_.get(want_reason[0])))
             created = len(re.findall(r'LOG world_new w\d+', out))
             if created > 1:
                 problems.append('%d Worlds created in one attempt' % created)
